@@ -1,0 +1,39 @@
+//go:build verif
+
+package types
+
+import (
+	sdk "github.com/cosmos/cosmos-sdk/types"
+
+	packettypes "github.com/bianjieai/tibc-go/modules/tibc/core/04-packet/types"
+)
+
+// VerifCallbackHook, when set by a verification harness, observes every application callback that is
+// reached through the router: kind is "recv" or "ack", ack holds the bytes returned by OnRecvPacket
+// (kind "recv") or passed to OnAcknowledgementPacket (kind "ack"), err the callback's error.
+var VerifCallbackHook func(kind string, packet packettypes.Packet, ack []byte, err error)
+
+type verifModule struct{ TIBCModule }
+
+func (v verifModule) OnRecvPacket(ctx sdk.Context, packet packettypes.Packet) (*sdk.Result, []byte, error) {
+	res, ack, err := v.TIBCModule.OnRecvPacket(ctx, packet)
+	VerifCallbackHook("recv", packet, ack, err)
+	return res, ack, err
+}
+
+func (v verifModule) OnAcknowledgementPacket(ctx sdk.Context, packet packettypes.Packet, acknowledgement []byte) (*sdk.Result, error) {
+	res, err := v.TIBCModule.OnAcknowledgementPacket(ctx, packet, acknowledgement)
+	VerifCallbackHook("ack", packet, acknowledgement, err)
+	return res, err
+}
+
+func verifRoute(rtr *Router, port Port) (TIBCModule, bool) {
+	if VerifCallbackHook == nil {
+		return nil, false
+	}
+	m, ok := rtr.routes[string(port)]
+	if !ok {
+		return nil, false
+	}
+	return verifModule{m}, true
+}
